@@ -127,7 +127,9 @@ class Ctx:
         out = os.path.join(self.scratch, tag + ".out")
         meta = os.path.join(self.scratch, "meta-" + tag)
         e = dict(os.environ)
-        jopts = "-Xss512m"
+        jtmp = os.path.join(self.scratch, "jtmp")     # SANY / TLC unpack their standard modules into java.io.tmpdir: keep that inside the scratch directory
+        os.makedirs(jtmp, exist_ok=True)
+        jopts = "-Xss512m -Djava.io.tmpdir=" + jtmp
         if xmx:
             jopts += " -Xmx" + xmx
         e["JAVA_TOOL_OPTIONS"] = jopts
